@@ -8,6 +8,7 @@ mod ext;
 mod gen;
 mod builder;
 mod pair;
+mod tcpx;
 
 fn main() {
     // panics inside the code under test are data (recorded in the output), not noise on stderr
@@ -27,6 +28,7 @@ fn main() {
         "attrs" => codec::main_attrs(&args[2..]),
         "builder" => builder::main_builder(&args[2..]),
         "pair" => pair::main_pair(&args[2..]),
+        "tcpx" => tcpx::main_tcpx(&args[2..]),
         "xor" => codec::main_xor(&args[2..]),
         "tracetest" => {
             let subscriber = tracing_subscriber::fmt().with_max_level(tracing::Level::TRACE).with_writer(std::io::stderr).finish();
